@@ -36,7 +36,7 @@ class FuncInfo:
 
     @property
     def name(self) -> str:
-        return self.node.name
+        return getattr(self, '_name_override', None) or self.node.name
 
     @property
     def decorators(self) -> List[str]:
@@ -149,6 +149,38 @@ class _MatchDesugar(ast.NodeTransformer):
         if isinstance(pat, ast.MatchAs) and pat.pattern is None:
             binds = [ast.Assign(targets=[ast.Name(id=pat.name, ctx=ast.Store())], value=subj())] if pat.name else []
             return ast.Constant(True), binds
+        if isinstance(pat, ast.MatchSequence):
+            # [a, b], [_, _, *rest], [x, 'lit', *_]: a list / tuple of the right length whose literal positions match; names bound by index
+            star = [i for i, p in enumerate(pat.patterns) if isinstance(p, ast.MatchStar)]
+            if len(star) > 1:
+                return None, []
+            n = len(pat.patterns) - len(star)
+            ln = ast.Call(func=ast.Name(id='len', ctx=ast.Load()), args=[subj()], keywords=[])
+            tests: List[ast.expr] = [
+                ast.Call(func=ast.Name(id='isinstance', ctx=ast.Load()), args=[subj(), ast.Tuple(elts=[ast.Name(id='list', ctx=ast.Load()), ast.Name(id='tuple', ctx=ast.Load())], ctx=ast.Load())], keywords=[]),
+                ast.Compare(left=ln, ops=[ast.GtE() if star else ast.Eq()], comparators=[ast.Constant(n)]),
+            ]
+            binds: List[ast.stmt] = []
+            for i, p in enumerate(pat.patterns):
+                if star and i > star[0]:
+                    idx: ast.expr = ast.UnaryOp(op=ast.USub(), operand=ast.Constant(len(pat.patterns) - i))
+                else:
+                    idx = ast.Constant(i)
+                elem = lambda idx=idx: ast.Subscript(value=subj(), slice=idx, ctx=ast.Load())  # noqa: E731
+                if isinstance(p, ast.MatchStar):
+                    if p.name:
+                        after = len(pat.patterns) - i - 1
+                        sl = ast.Slice(lower=ast.Constant(i), upper=ast.UnaryOp(op=ast.USub(), operand=ast.Constant(after)) if after else None)
+                        binds.append(ast.Assign(targets=[ast.Name(id=p.name, ctx=ast.Store())],
+                                                value=ast.Call(func=ast.Name(id='list', ctx=ast.Load()), args=[ast.Subscript(value=subj(), slice=sl, ctx=ast.Load())], keywords=[])))
+                elif isinstance(p, ast.MatchAs) and p.pattern is None:
+                    if p.name:
+                        binds.append(ast.Assign(targets=[ast.Name(id=p.name, ctx=ast.Store())], value=elem()))
+                elif isinstance(p, ast.MatchValue):
+                    tests.append(ast.Compare(left=elem(), ops=[ast.Eq()], comparators=[p.value]))
+                else:
+                    return None, []
+            return ast.BoolOp(op=ast.And(), values=tests), binds
         return None, []
 
     def visit_Match(self, node):
@@ -160,22 +192,37 @@ class _MatchDesugar(ast.NodeTransformer):
             tmp = f'__match_subject_{self.n}'
             pre, subj = [ast.Assign(targets=[ast.Name(id=tmp, ctx=ast.Store())], value=node.subject)], (lambda: ast.Name(id=tmp, ctx=ast.Load()))
         arms = []
+        flagged = False
         for c in node.cases:
             test, binds = self._test(c.pattern, subj)
             if test is None:
                 return node
-            if c.guard is not None:
-                if binds:
-                    return node  # a guard that reads a capture: keep the statement as it is
-                test = c.guard if isinstance(test, ast.Constant) and test.value is True else ast.BoolOp(op=ast.And(), values=[test, c.guard])
-            arms.append((test, binds + c.body))
-        chain: List[ast.stmt] = []
-        for test, body in reversed(arms):
-            if isinstance(test, ast.Constant) and test.value is True:
-                chain = list(body)
-            else:
-                chain = [ast.If(test=test, body=list(body), orelse=chain)]
-        out = pre + chain
+            guard = c.guard
+            if guard is not None and not binds:
+                test = guard if isinstance(test, ast.Constant) and test.value is True else ast.BoolOp(op=ast.And(), values=[test, guard])
+                guard = None
+            if guard is not None:
+                flagged = True  # the guard reads what the pattern binds: bind first, then test, and fall through to the next case when it fails
+            arms.append((test, binds, guard, c.body))
+        if not flagged:
+            chain: List[ast.stmt] = []
+            for test, binds, _, body in reversed(arms):
+                if isinstance(test, ast.Constant) and test.value is True:
+                    chain = list(binds) + list(body)
+                else:
+                    chain = [ast.If(test=test, body=list(binds) + list(body), orelse=chain)]
+            out = pre + chain
+        else:
+            flag = f'__match_done_{self.n}'
+            done = lambda: ast.UnaryOp(op=ast.Not(), operand=ast.Name(id=flag, ctx=ast.Load()))  # noqa: E731
+            mark = lambda: ast.Assign(targets=[ast.Name(id=flag, ctx=ast.Store())], value=ast.Constant(True))  # noqa: E731
+            out = pre + [ast.Assign(targets=[ast.Name(id=flag, ctx=ast.Store())], value=ast.Constant(False))]
+            for test, binds, guard, body in arms:
+                inner: List[ast.stmt] = [mark()] + list(body)
+                if guard is not None:
+                    inner = [ast.If(test=guard, body=inner, orelse=[])]
+                cond = done() if isinstance(test, ast.Constant) and test.value is True else ast.BoolOp(op=ast.And(), values=[done(), test])
+                out.append(ast.If(test=cond, body=list(binds) + inner, orelse=[]))
         for st in out:
             ast.copy_location(st, node)
             for sub in ast.walk(st):
@@ -247,6 +294,7 @@ class Repo:
                 fi = self.functions[new]
                 fi.moved_from = new  # type: ignore[attr-defined]
                 fi.qualname = old
+                fi._name_override = name  # type: ignore[attr-defined]  # also under the short name it was imported back as (`import gen_x as _gen_x`)
                 self.functions[old] = fi
                 self.modules[mod].functions.setdefault(name, fi)
 
